@@ -291,3 +291,29 @@ def zero_modulo_facts(d, facts):
         if (lhs - rhs.scale(k)).is_zero():
             return True
     return False
+
+
+def check_isclose_definition(ctx, rule):
+    """misctools.isclose(a, b, rtol, atol) is the test |a - b| < atol + rtol*|b| (the numpy.isclose predicate the package documents)"""
+    mdl = ctx.model
+    fi = mdl.func('misctools.isclose')
+    A, B_ = Rat.csym('ia'), Rat.csym('ib')
+    RT, AT = Rat.sym('rtol'), Rat.sym('atol')
+    from svtstatic import poly
+    poly.POSITIVE.update({'rtol', 'atol'})
+
+    def th(it):
+        r = it.call(it.closure_of('misctools.isclose'), [A, B_], {'rtol': RT, 'atol': AT})
+        out = it.truth(r)
+        expected = AT + RT * apply_fn('abs', B_) - apply_fn('abs', A - B_)
+        return bool(out), path_sign(it, expected)
+
+    def judge(v):
+        out, sg = v
+        if out and sg == frozenset('+'):
+            return True, ''
+        if (not out) and sg <= frozenset('-0'):
+            return True, ''
+        return False, 'isclose answers %r on a path that only knows sign(atol + rtol|b| - |a-b|) in {%s}: the predicate is not |a-b| < atol + rtol|b|' % (
+            out, ','.join(sorted(sg)))
+    Obligation(ctx, rule).run(fi, 'isclose(a, b) == (|a-b| < atol + rtol*|b|)', th, judge)
